@@ -245,7 +245,11 @@ func (r *Runner) execStore(cmd string, a []string) string {
 		if !okp {
 			return r.poison(e, fmt.Sprintf("merge(arg %s(%d))", o.kind, o.n), msg)
 		}
-		e.truth.Merge(o.truth)
+		if o == e {
+			e.truth.Merge(e.truth.Copy()) // merging a store into itself doubles it
+		} else {
+			e.truth.Merge(o.truth)
+		}
 		return "ok"
 	case "scopy":
 		if len(a) != 2 {
